@@ -369,6 +369,11 @@ def c07(res, tier, deadline):
                         label="%s/plain/history-from-empty" % tag))
         runs.append(Run(tag, "history", "", "C07", extra="depth=%d,start=%s" % (dd1, HIST_FULL),
                         label="%s/plain/history-from-full" % tag))
+        # partially registered starting points: histories that swap one class
+        # for another (same number of classes, different set) become short
+        for k, st in enumerate(("abmU", "abcmnwyU")):
+            runs.append(Run(tag, "history", "", "C07", extra="depth=%d,start=%s" % (dd1, st),
+                            label="%s/plain/history-from-partial%d" % (tag, k)))
     e1.execute(res, runs, deadline_total=deadline, second_oracle=False)
 
 
